@@ -101,6 +101,13 @@ def cases(draw) -> t.Any:
         members.insert(draw(st.integers(0, len(members))), S('none'))
     src = tg.node(draw(st.sampled_from(members)))
     v = draw(src.valid())
+    cls_ms = [m for m in members if m[0] == 'cls']
+    map_ms = [m for m in members if m[0] == 'map' and len(m) == 4]
+    if cls_ms and map_ms and draw(st.integers(0, 2)) == 2:
+        # a mapping shaped like the dataclass member (its field names as keys) whose values are the mapping member's:
+        # both members look at the same data, and afterwards at the same typed value
+        vnode = tg.node(draw(st.sampled_from(map_ms))[3])
+        v = {f['name']: draw(vnode.valid()) for f in draw(st.sampled_from(cls_ms))[1]['fields']}
     if draw(st.integers(0, 3)) == 3:
         v = gen.mutate(draw, v, [])
     if draw(st.booleans()):
